@@ -56,6 +56,7 @@ class ReaderProcess(mpctx_Process):
         queue: multiprocessing.Queue,
         buffer_size: int,
         stdin_fd,
+        interleaved: bool = False,
     ):
         """
         Args:
@@ -83,6 +84,7 @@ class ReaderProcess(mpctx_Process):
         self.queue = queue
         self.buffer_size = buffer_size
         self.stdin_fd = stdin_fd
+        self._interleaved = interleaved
 
     def run(self):
         if self.stdin_fd != -1:
@@ -115,7 +117,10 @@ class ReaderProcess(mpctx_Process):
 
     def _read_chunks(self, *files) -> Iterator[Tuple[memoryview, ...]]:
         if len(files) == 1:
-            for chunk in dnaio.read_chunks(files[0], self.buffer_size):
+            chunks = dnaio.read_chunks(files[0], self.buffer_size)
+            if self._interleaved:
+                chunks = _keep_fasta_pairs_together(chunks)
+            for chunk in chunks:
                 yield (chunk,)
         elif len(files) == 2:
             for chunks in dnaio.read_paired_chunks(
@@ -138,6 +143,31 @@ class ReaderProcess(mpctx_Process):
         for _ in range(len(self.connections)):
             worker_index = self.queue.get()
             self.connections[worker_index].send(-1)
+
+
+def _keep_fasta_pairs_together(chunks: Iterator[memoryview]) -> Iterator[memoryview]:
+    """
+    Ensure that no chunk of an interleaved FASTA file ends in the middle of a read pair.
+
+    dnaio.read_chunks() guarantees an even number of records per chunk only for FASTQ.
+    """
+    leftover = b""
+    for chunk in chunks:
+        if not leftover and bytes(chunk[0:1]) not in (b">", b"#"):
+            yield chunk
+            continue
+        data = leftover + bytes(chunk)
+        n_records = data.count(b"\n>") + (1 if data.startswith(b">") else 0)
+        if n_records % 2 == 1:
+            # Move the last record to the next chunk
+            split = data.rfind(b"\n>") + 1
+            data, leftover = data[:split], data[split:]
+        else:
+            leftover = b""
+        if data:
+            yield memoryview(data)
+    if leftover:
+        yield memoryview(leftover)
 
 
 class WorkerProcess(mpctx_Process):
@@ -323,6 +353,7 @@ class ParallelPipelineRunner(PipelineRunner):
             queue=self._need_work_queue,
             buffer_size=self._buffer_size,
             stdin_fd=fileno,
+            interleaved=inpaths.interleaved,
         )
         self._reader_process.daemon = True
         self._reader_process.start()
